@@ -190,6 +190,8 @@ type Parsed struct {
 	HeaderLen int
 	Payload   []byte
 	PadSize   int
+	// Terminated: a one-byte block contained an id-15 element (parsing stopped there)
+	Terminated bool
 }
 
 // ErrMalformed is returned by Parse for anything that is not a well-formed packet.
@@ -235,6 +237,7 @@ func Parse(b []byte) (*Parsed, error) {
 				}
 				id, l := body[i]>>4, int(body[i]&0x0F)+1
 				if id == 15 {
+					p.Terminated = true
 					break
 				}
 				if i+1+l > len(body) {
